@@ -135,6 +135,26 @@ def run(ctx):
         made += 1
         oracle_value(c, 'random')
         oracle_text(c, 'random-bracketed')
+        if made % 3 == 0:
+            # equal values built on other paths (a copy that came through pickling - what multiprocessing hands back -, a deep copy, a value whose
+            # feature-less atoms carry an explicitly constructed empty feature) print the same text and are read back to themselves
+            import copy, pickle
+            from depccg.cat import UnaryFeature
+
+            def explicit(x):
+                if isinstance(x, Functor):
+                    return Functor(explicit(x.left), x.slash, explicit(x.right))
+                return Atom(x.base, UnaryFeature()) if (isinstance(x.feature, UnaryFeature) and x.feature.value is None) else x
+            for how, v in (('pickled', pickle.loads(pickle.dumps(c))), ('deep-copied', copy.deepcopy(c)), ('explicit-empty-feature', explicit(c))):
+                try:
+                    ok = (v == c) and str(v) == str(c) and Category.parse(str(v)) == v
+                    got = str(v)
+                except Exception as e:      # noqa
+                    ok, got = False, f'{type(e).__name__}: {e}'
+                ctx.case(('copy', how, str(c)), nontrivial=not isinstance(c, Atom))
+                if not ok:
+                    ctx.fail('roundtrip_value', f'a {how} copy of the value {str(c)!r} prints as {got!r} / is not read back to itself', {'text': str(c), 'kind': 'copy:' + how})
+                    break
         if made % 4 == 0:
             a, b = (gen.rand_cat(rng, 'en', depth=rng.randint(0, 2), slashes=gen.SLASHES) for _ in range(2))
             if gen.wf_py(a) and gen.wf_py(b):
